@@ -24,7 +24,7 @@ def gen(rng, tier):
     n = {"quick": 150, "thorough": 3000, "search": 400}[tier]
     cases = []
     for _ in range(n):
-        route = rng.choice(["ctor", "ctor_view", "concat", "take_fill", "reindex", "shift", "object"])
+        route = rng.choice(["ctor", "ctor_view", "concat", "take_fill", "reindex", "shift", "object", "setitem"])
         nsrc = rng.randint(2, 4) if route == "concat" else 1
         sources = []
         for _s in range(nsrc):
@@ -57,6 +57,16 @@ def gen(rng, tier):
             case["labels"] = [rng.randrange(n0 + 3) for _ in range(rng.randint(1, 7))]
         elif route == "shift":
             case["k"] = rng.choice([-2, -1, 1, 2])
+        elif route == "setitem":
+            # arr[targets] = arr[sources] (targets distinct; identity, permutations, one source broadcast to many)
+            sources[0]["keys"] = []
+            n0 = len(sources[0]["docs"])
+            k = rng.randint(1, n0)
+            case["targets"] = rng.sample(range(n0), k)
+            mode = rng.choice(["identity", "any", "one"])
+            case["srcs"] = list(case["targets"]) if mode == "identity" else \
+                [rng.randrange(n0) for _ in range(k)] if mode == "any" else [rng.randrange(n0)] * k
+            case["how"] = rng.choice(["array", "series_mask"])
         voc = sorted({t for s in sources for d in s["docs"] for t in d}) or [0]
         qs = []
         for t in voc[:3]:
@@ -97,6 +107,9 @@ def _refs(case):
         return [None if i == -1 else (0, i) for i in case["idx"]]
     if route == "reindex":
         return [(0, lab) if lab < n0 else None for lab in case["labels"]]
+    if route == "setitem":
+        m = dict(zip(case["targets"], case["srcs"]))
+        return [(0, m.get(i, i)) for i in range(n0)]
     if route == "shift":
         k = case["k"]
         out = []
@@ -148,6 +161,18 @@ def impl(case):
             r = arrs[0].take(np.array(case["idx"], dtype=np.int64), allow_fill=True)
         elif route == "reindex":
             r = pd.Series(arrs[0]).reindex(case["labels"]).array
+        elif route == "setitem":
+            src = arrs[0][np.array(case["srcs"], dtype=np.int64)]
+            if case["how"] == "array":
+                r = arrs[0]
+                r[np.array(case["targets"], dtype=np.int64)] = src
+            else:
+                ser = pd.Series(arrs[0])
+                order = np.argsort(case["targets"])
+                mask = np.zeros(len(ser), dtype=bool)
+                mask[case["targets"]] = True
+                ser[mask] = pd.Series(src[np.asarray(order, dtype=np.int64)], index=ser.index[mask])
+                r = ser.array
         elif route == "shift":
             r = pd.Series(arrs[0]).shift(case["k"]).array
         else:
@@ -170,6 +195,8 @@ def impl(case):
 
 
 def model_req(case):
+    if case["route"] == "setitem":
+        return None          # in-place assignment is not in the Coq model: implementation vs the fresh-index spec only
     srcs = []
     for src in case["sources"]:
         n = len(src["docs"])
